@@ -41,8 +41,12 @@ def gen_cases(tier, seed, configs):
         n = r.randint(-1, nmax)
         omp = r.random() < 0.35
         extra = " omp=1 sched=%d seed=%d workers=%d" % (r.choice([0, 1, 2, 3]), r.randrange(1, 10 ** 6), r.choice([1, 2, 8])) if omp else ""
-        lines = ["case c10-%d" % k, "tree D=%d H=%d periodic=1 slotbits=64" % (D, H), "parts %d %s" % (len(parts), " ".join(str(x) for c in parts for x in c)),
-                 "build bs=%d mode=%d" % (bs, mode), "exec periodic n=%d%s" % (n, extra), "dump values", "end"]
+        offs = []
+        if k % 3 == 1:
+            # particles on the faces of their cells — for boundary cells, on the periodic boundary faces of the box — or one ulp inside them
+            offs = ["offs %d %s" % (len(parts), " ".join(str(r.choice([0, 1, 1, 2, 3])) for _ in range(len(parts) * D)))]
+        lines = ["case c10-%d" % k, "tree D=%d H=%d periodic=1 slotbits=64" % (D, H), "parts %d %s" % (len(parts), " ".join(str(x) for c in parts for x in c))] + offs + \
+                ["build bs=%d mode=%d" % (bs, mode), "exec periodic n=%d%s" % (n, extra), "dump values", "end"]
         cases.append({"name": "c10-%d" % k, "D": D, "H": H, "periodic": 1, "parts": parts, "bs": bs, "mode": mode, "lines": lines,
                       "meta": {"n": n, "omp": omp, "kind": kind}})
     return cases
